@@ -35,6 +35,7 @@ func TestC05RRWindow(t *testing.T) {
 			rt.Fatalf("harness: %v", err)
 		}
 		defer p.close()
+		p.dressFrom(rt)
 		var hist []memberOp
 		if rapid.IntRange(0, 2).Draw(rt, "withHistory") == 0 {
 			nops := rapid.IntRange(1, 8).Draw(rt, "nops")
@@ -71,14 +72,14 @@ func TestC05RRWindow(t *testing.T) {
 			name, _ := p.windowPick(via, obs, i)
 			seq = append(seq, name)
 		}
-		labels := append([]string{fmt.Sprintf("n%d", n), "via-" + via}, planLabels(load, obs)...)
+		labels := append([]string{fmt.Sprintf("n%d", n), "via-" + via, p.dress.Label()}, planLabels(load, obs)...)
 		if len(hist) > 0 {
 			labels = append(labels, "history")
 		}
 		if offset%n != 0 {
 			labels = append(labels, "offset-nonzero")
 		}
-		sub.Case(map[string]any{"n0": n0, "history": hist, "offset": offset, "k": k, "via": via, "inflight": load, "observers": obs},
+		sub.Case(map[string]any{"n0": n0, "history": hist, "offset": offset, "k": k, "via": via, "inflight": load, "observers": obs, "dress": p.dress},
 			n >= 2 && (offset%n != 0 || len(hist) > 0), labels...)
 		one := map[string]int{}
 		kk := map[string]int{}
